@@ -18,6 +18,11 @@ def diff_streams(tier):
             dict(name='exhaustive3x3', harness=['diff', 'exh', '3', '3', '{shard}', '{nshards}'], driver='diff'),
             dict(name='random12x20', harness=['diff', 'rand', '12', '20', '24000', '{seed}', '{shard}', '{nshards}'], driver='diff'),
         ]
+    if tier == 'extended':
+        return [
+            dict(name='random6x8', harness=['diff', 'rand', '6', '8', '300000', '{seed}', '{shard}', '{nshards}'], driver='diff'),
+            dict(name='random12x20', harness=['diff', 'rand', '12', '20', '300000', '{seed}', '{shard}', '{nshards}'], driver='diff'),
+        ]
     return [
         dict(name='exhaustive4x4', harness=['diff', 'exh', '4', '4', '{shard}', '{nshards}'], driver='diff', timeout=3400),
         dict(name='random12x20', harness=['diff', 'rand', '12', '20', '400000', '{seed}', '{shard}', '{nshards}'], driver='diff'),
